@@ -193,12 +193,25 @@ def check_file(job):
 
 
 ARGTXT = {"plain": "x1", "nested": "f(1, 2)", "string": "'stop! a,b'", "kw2": "p2=y", "kw3": "p3=z", "cmp": "p2 == 0"}
+# dummy-argument namings: the second one puts the names in a proper-prefix relation (the keyword of the 2nd dummy is a
+# prefix of the 1st and the 3rd dummy's names), the third one differs only in letter case between keyword and declaration
+NAMINGS = [("p1", "p2", "p3"), ("pp", "p", "ppp"), ("Nx", "N", "nxy")]
 
 
 def check_calls(states):
+    bad = []
+    for names in NAMINGS:
+        bad += _check_calls(states, names)
+    return bad
+
+
+def _check_calls(states, names):
+    n1, n2, n3 = names
+    ARGTXT = {"plain": "x1", "nested": "f(1, 2)", "string": "'stop! a,b'", "kw2": n2.lower() + "=y", "kw3": n3 + "=z", "cmp": n2 + " == 0"}
+    ntag = "dummyNames:" + "/".join(names)
     hdr = ["module mc", "  implicit none", "contains", "  integer function f(a, b)", "    integer :: a, b", "    f = a + b", "  end function f",
-           "  subroutine tgt(p1, p2, p3)", "    integer :: p1", "    integer :: p2", "    character(len=*), optional :: p3", "  end subroutine tgt",
-           "  subroutine caller()", "    integer :: x1, y, p2", "    character(len=3) :: z"]
+           "  subroutine tgt(%s, %s, %s)" % names, "    integer :: " + n1, "    integer :: " + n2, "    character(len=*), optional :: " + n3, "  end subroutine tgt",
+           "  subroutine caller()", "    integer :: x1, y, " + n2 if n2.lower() != "y" else "    integer :: x1, y", "    character(len=3) :: z"]
     lines = list(hdr)
     sites = []
     for st in states:
@@ -212,10 +225,10 @@ def check_calls(states):
         if st["call"][i] == "plain":
             cols.add(off + 1)
         if st["call"][i] == "cmp":
-            cols.add(off + 6)     # behind the "=="
+            cols.add(off + len(n2) + 4)     # behind the "=="
         if st["call"][i] in ("kw2", "kw3"):
             # the server sees the text up to the cursor: the keyword counts once "name=" has been typed
-            cols = {off + 3, off + len(a)}
+            cols = {off + a.index("=") + 1, off + len(a)}
         lines.append(text)
         sites.append((len(lines) - 1, sorted(cols), st))
         # the same call with every argument on its own continuation line; the cursor is on the line of argument i
@@ -241,13 +254,15 @@ def check_calls(states):
             for col in cols:
                 r = adapter.result_of(adapter.request(s, c, "textDocument/signatureHelp", adapter.posparams(d, "c.f90", ln, col)))
                 tags = {"call:" + "+".join(st["call"]), "cursorArg:%d" % st["cursor"], "argKind:" + st["call"][st["cursor"] - 1]}
+                if names != NAMINGS[0]:
+                    tags.add(ntag)
                 if st.get("_multiline"):
                     tags.add("layout:continuationLines")
                 if not r or not r.get("signatures"):
                     bad.append((tags | {"sig:none"}, {"line": lines[ln], "col": col}))
                     continue
                 params = [re.sub(r"=.*", "", p["label"]).strip().lower() for p in r["signatures"][0]["parameters"]]
-                if params != ["p1", "p2", "p3"]:
+                if params != [n.lower() for n in names]:
                     bad.append((tags | {"sig:parameterOrder"}, {"line": lines[ln], "col": col, "params": params}))
                 if r.get("activeParameter") != st["active"]:
                     bad.append((tags | {"sig:activeParameter"}, {"line": lines[ln], "col": col, "expected": st["active"], "observed": r.get("activeParameter")}))
